@@ -453,3 +453,401 @@ Print Assumptions C03_section_okb_ok.
 Print Assumptions C03_other_text_unchanged.
 Print Assumptions C03_standardize_idem.
 Print Assumptions C03_standardize_cases.
+
+(* ====================================================================================== *)
+(* FILE LEVEL (appended).  Proofs in Proofs/FileRoundTrip*.v.                               *)
+(* ====================================================================================== *)
+(* The composition that the header of this file lists as "NOT PROVED HERE" — cutting the text
+   at the title lines, the reader's own version detection, re-reading ~Other — is proved here
+   at the level of the WHOLE FILE: Model/Read.v read (its first pass first_pass, then read
+   itself) applied to the text returned by Model/Writer.v write.
+
+   Reading.  write o m = WOk text m'.  hs (Proofs/WriteOptionsProofs.v write_sections) is the
+   written form of the header: version written, ~Version items with VERS substituted, item
+   lines of the four sections, in-memory file after the call (hs_las hs = m_las m').  dl is the
+   line that opens the data section (dsh_of), rts the printed rows.
+
+     C03_written_text_lines   lines_keep text (the physical lines, terminators kept, as the
+                              reader iterates over them) is the rendering of SIX blocks
+                              (C05: title line + body lines), every line followed by "\n":
+                              ~Version, ~Well, ~Curve Information, ~Params, ~Other (splitlines
+                              of the text), data section — when no written line contains "\n";
+     C03_written_blocks_wf    the six blocks are well formed when no body line is a title
+                              and data_section_header starts with "~A"/"~a";
+     C03_written_sections_found   hence (C05_cut, C05_bodies, views_exact) find_sections lists
+                              exactly six sections whose titles, bodies and (~Other) stripped
+                              lines are the written ones;
+     C03_title_types          the five fixed titles are classified header x4 (letters V, W,
+                              C, P, no underscore) and ~Other, for EVERY header_width;
+     C03_lines_from_items     "no written item line is a title / contains a newline" follows
+                              from section_ok (this file, item 5) and newline-free mnemonics;
+     C03_file_first_pass      = the first pass on the written text (hypotheses on lines);
+     C03_file_roundtrip       THE FILE-LEVEL STATEMENT: under
+                                header_hyps  (section_ok of the four sections with the reader's
+                                             comment character '#'; version written is 1.2 or
+                                             2.0; fstr "1.2" = "1.2", fstr "2.0" = "2.0"
+                                             (ORACLE: str(np.float64(1.2)) = "1.2"); exactly
+                                             one ~Version item in the name class of VERS as
+                                             the reader compares names (in_class: mnemonic
+                                             case-mapped, compared case-insensitively unless
+                                             mnemonic_case = preserve); DLM absent or SPACE),
+                                text_hyps    (mnemonics newline-free; no ~Other line starts,
+                                             stripped, with '~'; data_section_header "~A..."
+                                             newline-free; session mnemonics of the curves
+                                             newline-free — they are printed on the ~A line
+                                             with mnemonics_header),
+                                the C01 token hypotheses (wr_tok, spacers white space) and
+                                data_text_hyps (spacers newline-free, no token contains '~'),
+                              the first pass succeeds and gives: the four sections with
+                              map meta = the expected metas (header_read_back; mnemonic
+                              case-mapped, unit strip_brackets, value read_value of
+                              str(value)), l_other = the text with every line stripped,
+                              no custom section; THE VERSION THE READER DERIVES from the VERS
+                              item it read back (through num and version_of) IS THE VERSION
+                              WRITTEN and it is the version used to parse ~Well, ~Curves,
+                              ~Parameter (~Version itself is parsed under the provisional
+                              2.0: the ~Version order table is the same for every version,
+                              order_for_version); DLM is SPACE; NULL is the value of the
+                              unique ~Well item of class NULL read back (null_read); with
+                              WRAP written YES the reader holds WRAP YES; exactly one data
+                              section is queued; with ignore_data the whole read returns
+                              this file.
+     C03_file_hyps_unfold / C03_header_read_back_unfold / C03_text_hyps_unfold   definitions.
+   The data part of the whole read is C01_file_roundtrip (Props/C01.v).
+   Still not proved (correspondence only): versions other than 1.2/2.0 (the writer then does
+   not substitute VERS), duplicated VERS/WRAP/NULL mnemonics, DLM other than SPACE,
+   comment characters other than '#'. *)
+Require Import Sections SectionsProofs BlocksCongr WriteDataTextProofs
+  FileRoundTripText FileRoundTripBlocks FileRoundTripFind FileRoundTripFirstPass FileRoundTripHeader
+  FileRoundTripData FileRoundTripLines FileRoundTrip FileRoundTripMain FileRoundTripCheck.
+
+Theorem C03_written_text_lines : forall fmtv fmt_diff fmt_pi fstr fzero numeq o m text m',
+  write fmtv fmt_diff fmt_pi fstr fzero numeq o m = WOk text m' ->
+  exists hs dl rts,
+    write_sections fmtv fmt_diff fstr fzero numeq (wo_version o) (wo_wrap o) (col_fmt o 0%nat) m = Some hs /\
+    m' = mkmlas (hs_las hs) (m_index_initial m) /\
+    dsh_of fmtv fmt_pi fstr o hs = Some dl /\
+    opt_all (map (row_text fmtv fmt_pi o (las_null_text fstr (hs_las hs)) 0%nat) (las_rows (hs_las hs))) = Some rts /\
+    text = flat_map add_nl (render (written_blocks o hs dl (data_lines_of o hs rts))) /\
+    (lines_nlfree o hs dl (data_lines_of o hs rts) ->
+     lines_keep text = render (map nl_block (written_blocks o hs dl (data_lines_of o hs rts)))).
+Proof. exact written_text_lines. Qed.
+
+Theorem C03_written_blocks_unfold : forall o hs dl dls,
+  written_blocks o hs dl dls =
+  [ (title_line (wo_header_width o) (s2l "~Version "), hs_lv hs);
+    (title_line (wo_header_width o) (s2l "~Well "), hs_lw hs);
+    (title_line (wo_header_width o) (s2l "~Curve Information "), hs_lc hs);
+    (title_line (wo_header_width o) (s2l "~Params "), hs_lp hs);
+    (title_line (wo_header_width o) (s2l "~Other "), splitlines (l_other (hs_las hs)));
+    (dl, dls) ].
+Proof. reflexivity. Qed.
+
+Theorem C03_written_blocks_wf : forall o hs dl dls rest,
+  dl = wo_data_section_header o ++ 32 :: rest -> data_header_ok (wo_data_section_header o) ->
+  bodies_notitle hs dls -> Forall wf_block (written_blocks o hs dl dls).
+Proof. exact written_blocks_wf. Qed.
+
+Theorem C03_data_line_shape : forall fmtv fmt_pi fstr o hs dl,
+  dsh_of fmtv fmt_pi fstr o hs = Some dl -> exists rest, dl = wo_data_section_header o ++ 32 :: rest.
+Proof. exact dsh_of_shape. Qed.
+
+Theorem C03_written_sections_found : forall ls o hs dl dls rest,
+  ls = render (map nl_block (written_blocks o hs dl dls)) ->
+  dl = wo_data_section_header o ++ 32 :: rest -> data_header_ok (wo_data_section_header o) ->
+  bodies_notitle hs dls ->
+  let hw := wo_header_width o in
+  map (view ls) (find_sections ls) =
+  [ (stitle hw t_version, map add_nl (hs_lv hs), join [ch_nl] (map strip (hs_lv hs)));
+    (stitle hw t_well, map add_nl (hs_lw hs), join [ch_nl] (map strip (hs_lw hs)));
+    (stitle hw t_curves, map add_nl (hs_lc hs), join [ch_nl] (map strip (hs_lc hs)));
+    (stitle hw t_params, map add_nl (hs_lp hs), join [ch_nl] (map strip (hs_lp hs)));
+    (stitle hw t_other, map add_nl (splitlines (l_other (hs_las hs))),
+       join [ch_nl] (map strip (splitlines (l_other (hs_las hs)))));
+    (strip (add_nl dl), map add_nl dls, join [ch_nl] (map strip dls)) ].
+Proof. exact written_sections_found. Qed.
+
+Theorem C03_title_types : forall hw,
+  (exists r, stitle hw t_version = 126 :: 86 :: r /\ section_type (stitle hw t_version) = THeader /\ in_str 95 (stitle hw t_version) = false) /\
+  (exists r, stitle hw t_well = 126 :: 87 :: r /\ section_type (stitle hw t_well) = THeader /\ in_str 95 (stitle hw t_well) = false) /\
+  (exists r, stitle hw t_curves = 126 :: 67 :: r /\ section_type (stitle hw t_curves) = THeader /\ in_str 95 (stitle hw t_curves) = false) /\
+  (exists r, stitle hw t_params = 126 :: 80 :: r /\ section_type (stitle hw t_params) = THeader /\ in_str 95 (stitle hw t_params) = false) /\
+  (exists r, stitle hw t_other = 126 :: 79 :: r /\ section_type (stitle hw t_other) = TOther).
+Proof.
+  exact (fun hw => conj (stitle_version hw) (conj (stitle_well hw) (conj (stitle_curves hw) (conj (stitle_params hw) (stitle_other hw))))).
+Qed.
+
+Theorem C03_data_title_type : forall h rest, data_header_ok h ->
+  exists c r, strip (add_nl (h ++ 32 :: rest)) = 126 :: c :: r /\
+              section_type (strip (add_nl (h ++ 32 :: rest))) = TData.
+Proof. exact data_title_type. Qed.
+
+Theorem C03_lines_from_items : forall fmtv fmt_diff fstr fzero numeq ver wrapo ifmt m hs cc,
+  write_sections fmtv fmt_diff fstr fzero numeq ver wrapo ifmt m = Some hs ->
+  section_ok fstr (hs_version hs) KVersion cc (hs_vers_items hs) ->
+  section_ok fstr (hs_version hs) KWell cc (s_items (l_well (hs_las hs))) ->
+  section_ok fstr (hs_version hs) KCurves cc (s_items (l_curves (hs_las hs))) ->
+  section_ok fstr (hs_version hs) KParameter cc (s_items (l_params (hs_las hs))) ->
+  (notitles (hs_lv hs) /\ notitles (hs_lw hs) /\ notitles (hs_lc hs) /\ notitles (hs_lp hs)) /\
+  (mnemonics_nlfree (hs_vers_items hs) -> mnemonics_nlfree (s_items (l_well (hs_las hs))) ->
+   mnemonics_nlfree (s_items (l_curves (hs_las hs))) -> mnemonics_nlfree (s_items (l_params (hs_las hs))) ->
+   Forall nlfree (hs_lv hs) /\ Forall nlfree (hs_lw hs) /\ Forall nlfree (hs_lc hs) /\ Forall nlfree (hs_lp hs)).
+Proof.
+  exact (fun fmtv fmt_diff fstr fzero numeq ver wrapo ifmt m hs cc Hs a b c d =>
+    conj (written_header_notitles fmtv fmt_diff fstr fzero numeq ver wrapo ifmt m hs cc Hs a b c d)
+         (written_header_nlfree fmtv fmt_diff fstr fzero numeq ver wrapo ifmt m hs cc Hs a b c d)).
+Qed.
+
+(* sect_find on a section just parsed, by name class (the duplicate-suffix rule renames only
+   inside classes with two or more members) *)
+Theorem C03_find_read_back : forall fstr v k c cc ig key lines items items',
+  in_str ch_colon key = false ->
+  parse_body v k c ig cc (trc c) lines [] = POk items' ->
+  map meta items' = map (fun it => meta (expected_item fstr k c it)) items ->
+  (forall it0, filter (in_class c key) items = [it0] ->
+     exists x, sect_find (trc c) key items' = Some x /\ meta x = meta (expected_item fstr k c it0)) /\
+  (filter (in_class c key) items = [] -> sect_find (trc c) key items' = None).
+Proof.
+  exact (fun fstr v k c cc ig key lines items items' Hk Hp Hm =>
+    conj (fun it0 => read_back_find_unique fstr v k c cc ig key Hk lines items items' it0 Hp Hm)
+         (read_back_find_absent fstr v k c cc ig key Hk lines items items' Hp Hm)).
+Qed.
+
+(* the version the reader derives from the VERS item read back is the version written *)
+Theorem C03_reader_version : forall fmtv fmt_diff fstr fzero numeq c vit hs ver wrapo ifmt m,
+  write_sections fmtv fmt_diff fstr fzero numeq ver wrapo ifmt m = Some hs ->
+  std_version (hs_version hs) -> fstr_vers_ok fstr ->
+  filter (in_class c (s2l "VERS")) (hs_vers_items hs) = [vit] ->
+  version_of (i_value (expected_item fstr KVersion c vit)) = Some (hs_version hs).
+Proof. exact reader_version. Qed.
+
+Theorem C03_version_section_any_version : forall v v' c ie cc tr lines acc,
+  parse_body v KVersion c ie cc tr lines acc = parse_body v' KVersion c ie cc tr lines acc.
+Proof. exact parse_body_version. Qed.
+
+Theorem C03_file_first_pass : forall fmtv fmt_diff fmt_pi fstr fzero numeq fhex ro o m text m' hs dl rts vit,
+  write fmtv fmt_diff fmt_pi fstr fzero numeq o m = WOk text m' ->
+  write_sections fmtv fmt_diff fstr fzero numeq (wo_version o) (wo_wrap o) (col_fmt o 0%nat) m = Some hs ->
+  dsh_of fmtv fmt_pi fstr o hs = Some dl ->
+  opt_all (map (row_text fmtv fmt_pi o (las_null_text fstr (hs_las hs)) 0%nat) (las_rows (hs_las hs))) = Some rts ->
+  data_header_ok (wo_data_section_header o) ->
+  lines_nlfree o hs dl (data_lines_of o hs rts) -> bodies_notitle hs (data_lines_of o hs rts) ->
+  header_hyps fstr ro hs vit ->
+  exists ps p6 l,
+    find_sections (lines_keep text) <> [] /\
+    first_pass ro (lines_keep text) ps0 (find_sections (lines_keep text)) = inl ps /\
+    p_las ps = l /\ header_read_back fstr ro hs l /\ l_data l = [] /\
+    version_of (p_version ps) = Some (hs_version hs) /\
+    dlm_of (p_dlm ps) = Some DSpace /\
+    null_read fstr ro hs (p_null ps) /\
+    (wrap_ok fstr (o_mcase ro) hs -> hs_wrap hs = true ->
+       hval_is_str (p_wrapped ps) (s2l "YES") = true /\ ReadCongr.wrap_decl l = true) /\
+    p_data ps = [p6] /\ p_las3data ps = [] /\
+    body_lines (lines_keep text) p6 = map add_nl (data_lines_of o hs rts) /\
+    (o_ignore_data ro = true -> read fhex fstr numeq ro text = ROk l).
+Proof. exact read_written_header_lines. Qed.
+
+Theorem C03_file_roundtrip : forall fmtv fmt_diff fmt_pi fstr fzero numeq fhex ro o m text m' hs dl rts vit nt,
+  write fmtv fmt_diff fmt_pi fstr fzero numeq o m = WOk text m' ->
+  write_sections fmtv fmt_diff fstr fzero numeq (wo_version o) (wo_wrap o) (col_fmt o 0%nat) m = Some hs ->
+  dsh_of fmtv fmt_pi fstr o hs = Some dl ->
+  las_null_text fstr (hs_las hs) = Some nt ->
+  opt_all (map (row_text fmtv fmt_pi o (Some nt) 0%nat) (las_rows (hs_las hs))) = Some rts ->
+  header_hyps fstr ro hs vit -> text_hyps o hs ->
+  Forall (Forall (WriteDataProofs.wr_tok fhex)) (WriteDataProofs.tok_matrix fmtv o nt (las_rows (hs_las hs))) ->
+  forallb is_space (wo_lhs_spacer o) = true -> forallb is_space (wo_spacer o) = true ->
+  data_text_hyps fmtv o nt (las_rows (hs_las hs)) ->
+  exists ps l,
+    find_sections (lines_keep text) <> [] /\
+    first_pass ro (lines_keep text) ps0 (find_sections (lines_keep text)) = inl ps /\
+    p_las ps = l /\ header_read_back fstr ro hs l /\ l_data l = [] /\
+    version_of (p_version ps) = Some (hs_version hs) /\
+    dlm_of (p_dlm ps) = Some DSpace /\
+    null_read fstr ro hs (p_null ps) /\
+    (wrap_ok fstr (o_mcase ro) hs -> hs_wrap hs = true ->
+       hval_is_str (p_wrapped ps) (s2l "YES") = true /\ ReadCongr.wrap_decl l = true) /\
+    List.length (p_data ps) = 1%nat /\ p_las3data ps = [] /\
+    (o_ignore_data ro = true -> read fhex fstr numeq ro text = ROk l).
+Proof. exact read_written_header. Qed.
+
+Theorem C03_file_hyps_unfold : forall fstr ro hs vit,
+  header_hyps fstr ro hs vit <->
+  (section_ok fstr (hs_version hs) KVersion [ch_hash] (hs_vers_items hs) /\
+   section_ok fstr (hs_version hs) KWell [ch_hash] (s_items (l_well (hs_las hs))) /\
+   section_ok fstr (hs_version hs) KCurves [ch_hash] (s_items (l_curves (hs_las hs))) /\
+   section_ok fstr (hs_version hs) KParameter [ch_hash] (s_items (l_params (hs_las hs))) /\
+   (hs_version hs = V12 \/ hs_version hs = V20) /\
+   (fstr (s2l "1.2") = s2l "1.2" /\ fstr (s2l "2.0") = s2l "2.0") /\
+   filter (in_class (o_mcase ro) (s2l "VERS")) (hs_vers_items hs) = [vit] /\
+   match filter (in_class (o_mcase ro) (s2l "DLM")) (hs_vers_items hs) with
+   | [] => True
+   | [dit] => vstr fstr (i_value dit) = s2l "SPACE"
+   | _ => False
+   end).
+Proof. reflexivity. Qed.
+
+Theorem C03_in_class_unfold : forall c key it,
+  in_class c key it =
+  mn_compare (match c with CasePreserve => false | _ => true end) (useful (apply_case c (i_orig it))) key.
+Proof. reflexivity. Qed.
+
+Theorem C03_text_hyps_unfold : forall o hs,
+  text_hyps o hs <->
+  ((forall it, In it (hs_vers_items hs) -> in_str 10 (i_orig it) = false) /\
+   (forall it, In it (s_items (l_well (hs_las hs))) -> in_str 10 (i_orig it) = false) /\
+   (forall it, In it (s_items (l_curves (hs_las hs))) -> in_str 10 (i_orig it) = false) /\
+   (forall it, In it (s_items (l_params (hs_las hs))) -> in_str 10 (i_orig it) = false) /\
+   forallb (fun l => negb (startswith [ch_tilde] (strip l))) (splitlines (l_other (hs_las hs))) = true /\
+   (exists c r, wo_data_section_header o = 126 :: c :: r /\ ascii_upper c = 65) /\
+   in_str 10 (wo_data_section_header o) = false /\
+   (forall it, In it (s_items (l_curves (hs_las hs))) -> in_str 10 (i_sess it) = false)).
+Proof. reflexivity. Qed.
+
+Theorem C03_header_read_back_unfold : forall fstr ro hs l,
+  header_read_back fstr ro hs l <->
+  (let c := o_mcase ro in
+   map meta (s_items (l_version l)) = map (fun it => meta (expected_item fstr KVersion c it)) (hs_vers_items hs) /\
+   map meta (s_items (l_well l)) = map (fun it => meta (expected_item fstr KWell c it)) (s_items (l_well (hs_las hs))) /\
+   map meta (s_items (l_curves l)) = map (fun it => meta (expected_item fstr KCurves c it)) (s_items (l_curves (hs_las hs))) /\
+   map meta (s_items (l_params l)) = map (fun it => meta (expected_item fstr KParameter c it)) (s_items (l_params (hs_las hs))) /\
+   l_other l = join [ch_nl] (map strip (splitlines (l_other (hs_las hs)))) /\
+   l_custom l = [] /\
+   s_transforms (l_version l) = trc c /\ s_transforms (l_well l) = trc c /\
+   s_transforms (l_curves l) = trc c /\ s_transforms (l_params l) = trc c).
+Proof. reflexivity. Qed.
+
+Theorem C03_null_read_unfold : forall fstr ro hs pn,
+  null_read fstr ro hs pn <->
+  match filter (in_class (o_mcase ro) (s2l "NULL")) (s_items (l_well (hs_las hs))) with
+  | [] => pn = None
+  | [nit] => pn = Some (i_value (expected_item fstr KWell (o_mcase ro) nit))
+  | _ => True
+  end.
+Proof. reflexivity. Qed.
+
+Theorem C03_wrap_ok_unfold : forall fstr c hs,
+  wrap_ok fstr c hs <->
+  (hs_wrap hs = true ->
+   exists wit, filter (in_class c (s2l "WRAP")) (hs_vers_items hs) = [wit] /\ vstr fstr (i_value wit) = s2l "YES").
+Proof. reflexivity. Qed.
+
+(* the hypotheses as one executable predicate (Proofs/FileRoundTripCheck.v) *)
+Theorem C03_file_hypsb_ok : forall fmtv fmt_pi fstr fhex ro o hs nt,
+  file_hypsb fmtv fmt_pi fstr fhex ro o hs nt = true ->
+  (exists vit, header_hyps fstr ro hs vit) /\ text_hyps o hs /\ wrap_ok fstr (o_mcase ro) hs /\
+  data_hyps fmtv fmt_pi fhex o nt (las_rows (hs_las hs)) (List.length (s_items (l_curves (hs_las hs)))) /\
+  data_text_hyps fmtv o nt (las_rows (hs_las hs)).
+Proof.
+  intros fmtv fmt_pi fstr fhex ro o hs nt H. unfold file_hypsb in H.
+  do 4 (apply andb_true_iff in H as [H ?]).
+  split; [apply header_hypsb_ok; assumption|]. split; [apply text_hypsb_ok; assumption|].
+  split; [apply wrap_okb_ok; assumption|]. split; [apply data_hypsb_ok; assumption|].
+  apply data_text_hypsb_ok; assumption.
+Qed.
+
+(* ---- non-vacuity: ex_m (above) through write and read, at file level ---------------------- *)
+Definition fx_fmtv (f t : list N) : list N := t.
+Definition fx_fmt_diff (f a b : list N) : list N := a.
+Definition fx_fmt_pi (f : list N) : list N := s2l "3.14159".
+Definition fx_fzero (t : list N) : bool := false.
+Definition fx_numeq (a b : list N) : bool := str_eqb a b.
+Definition fx_fhex (t : list N) : option (list N) := match py_float_dec t with Some _ => Some t | None => None end.
+Definition fx_o : wopts := mkwopts (Some W12) None [] [] LAuto [32] [32] 79 60 (s2l "~ASCII") false.
+Definition fx_ro (c : mcase) (ignore_data : bool) : ropts := mkropts false c true true ignore_data.
+Definition fx_write := write fx_fmtv fx_fmt_diff fx_fmt_pi ex_fstr fx_fzero fx_numeq fx_o ex_m.
+Definition fx_text : list N := match fx_write with WOk t _ => t | WErr _ => [] end.
+Definition fx_hs : hdr_sections :=
+  match write_sections fx_fmtv fx_fmt_diff ex_fstr fx_fzero fx_numeq (Some W12) None [] ex_m with
+  | Some hs => hs
+  | None => mkhs false V20 [] [] [] [] [] empty_las
+  end.
+
+Example C03_ex_file_text :
+  l2s fx_text =
+"~Version ---------------------------------------------------
+VERS. 1.2 : CWLS LOG ASCII STANDARD - VERSION 1.2
+WRAP.  NO : 
+~Well ------------------------------------------------------
+STRT.M                      1.0 : 
+STOP.M                      2.0 : 
+STEP.M                      2.0 : 
+NULL.                   -999.25 : 
+BHT .DEGC empty value with unit : 0
+~Curve Information -----------------------------------------
+DEPT.M  : 
+GR  .   : 
+~Params ----------------------------------------------------
+TIME. 13:45 23-JAN : Time: at bottom
+BHT .DEGC     35.5 : 
+~Other -----------------------------------------------------
+free text
+~ASCII -----------------------------------------------------
+        1.0          5
+        2.0    -999.25
+"%string.
+Proof. vm_compute. reflexivity. Qed.
+
+(* every hypothesis of C03_file_roundtrip / C01_file_roundtrip holds for it, for the three
+   mnemonic_case settings *)
+Example C03_ex_file_domain : forall c,
+  write_sections fx_fmtv fx_fmt_diff ex_fstr fx_fzero fx_numeq (wo_version fx_o) (wo_wrap fx_o) (col_fmt fx_o 0%nat) ex_m = Some fx_hs /\
+  file_hypsb fx_fmtv fx_fmt_pi ex_fstr fx_fhex (fx_ro c false) fx_o fx_hs (s2l "-999.25") = true.
+Proof. intros [| |]; split; vm_compute; reflexivity. Qed.
+
+(* what read returns on the written text, computed: the 1.2 ~Well order was undone by the
+   reader with the version IT derived from "VERS. 1.2"; "free text" came back; mnemonics lower-cased *)
+Example C03_ex_file_read :
+  match read fx_fhex ex_fstr fx_numeq (fx_ro CaseLower true) fx_text with
+  | ROk l => (map meta (s_items (l_well l)), l2s (l_other l), l_custom l, l_data l)
+  | RErr _ => ([], ""%string, [], [[CStr []]])
+  end =
+  ([ (s2l "strt", s2l "M", VFloat (s2l "1.0"), []); (s2l "stop", s2l "M", VFloat (s2l "2.0"), []);
+     (s2l "step", s2l "M", VFloat (s2l "2.0"), []); (s2l "null", [], VFloat (s2l "-999.25"), []);
+     (s2l "bht", s2l "DEGC", VInt 0, s2l "empty value with unit") ], "free text"%string, [], []).
+Proof. vm_compute. reflexivity. Qed.
+
+(* the theorem applied to it: the first pass, as the theorem describes it *)
+Example C03_ex_file_theorem : forall c,
+  exists ps l,
+    first_pass (fx_ro c true) (lines_keep fx_text) ps0 (find_sections (lines_keep fx_text)) = inl ps /\
+    p_las ps = l /\ header_read_back ex_fstr (fx_ro c true) fx_hs l /\
+    version_of (p_version ps) = Some V12 /\
+    read fx_fhex ex_fstr fx_numeq (fx_ro c true) fx_text = ROk l.
+Proof.
+  intros c.
+  assert (Hw : fx_write = WOk fx_text (mkmlas (hs_las fx_hs) None)) by (vm_compute; reflexivity).
+  destruct (C03_ex_file_domain c) as (Hs & Hb).
+  assert (Hb' : file_hypsb fx_fmtv fx_fmt_pi ex_fstr fx_fhex (fx_ro c true) fx_o fx_hs (s2l "-999.25") = true)
+    by (destruct c; vm_compute; reflexivity).
+  destruct (C03_file_hypsb_ok _ _ _ _ _ _ _ _ Hb') as ((vit & Hh) & Ht & _ & (_ & _ & _ & Hwr & Hl & Hsp & _) & Hd).
+  destruct (C03_file_roundtrip fx_fmtv fx_fmt_diff fx_fmt_pi ex_fstr fx_fzero fx_numeq fx_fhex (fx_ro c true) fx_o ex_m
+              fx_text _ fx_hs
+              (match dsh_of fx_fmtv fx_fmt_pi ex_fstr fx_o fx_hs with Some d => d | None => [] end)
+              (match opt_all (map (row_text fx_fmtv fx_fmt_pi fx_o (Some (s2l "-999.25")) 0%nat) (las_rows (hs_las fx_hs))) with
+               | Some r => r | None => [] end)
+              vit (s2l "-999.25") Hw Hs)
+    as (ps & l & _ & Hfp & Hl0 & Hrb & _ & Hv & _ & _ & _ & _ & _ & Hread); try assumption;
+    try (vm_compute; reflexivity).
+  exists ps, l. repeat (split; [assumption|]). apply Hread. reflexivity.
+Qed.
+
+Print Assumptions C03_written_text_lines.
+Print Assumptions C03_written_blocks_unfold.
+Print Assumptions C03_written_blocks_wf.
+Print Assumptions C03_data_line_shape.
+Print Assumptions C03_written_sections_found.
+Print Assumptions C03_title_types.
+Print Assumptions C03_data_title_type.
+Print Assumptions C03_lines_from_items.
+Print Assumptions C03_find_read_back.
+Print Assumptions C03_reader_version.
+Print Assumptions C03_version_section_any_version.
+Print Assumptions C03_file_first_pass.
+Print Assumptions C03_file_roundtrip.
+Print Assumptions C03_file_hyps_unfold.
+Print Assumptions C03_in_class_unfold.
+Print Assumptions C03_text_hyps_unfold.
+Print Assumptions C03_header_read_back_unfold.
+Print Assumptions C03_null_read_unfold.
+Print Assumptions C03_wrap_ok_unfold.
+Print Assumptions C03_file_hypsb_ok.
